@@ -41,6 +41,10 @@ FlK = flat(a:u8,*i:InnerUS)
 FlMK = flat(a:u8,*m:bmap(string,US))
 FlMC = flat(a:u8,*m:bmap(string,char))
 Hr = newtype(u8)
+HandS = struct(secs:u64,nanos:u32)
+ExtK = enum(A|B|C)
+FlEK = flat(a:u8,*m:bmap(ExtK,u8))
+MapEK = struct(m:bmap(ExtK,i8))
 SkipS = struct(a:u8,b_s:opt(u8),c:opt(string),d_s:opt(P2),e:bool)
 SkipE = enum(A|D{x:u8,y_s:opt(i8),z_s:opt(string)})
 InnerB = struct(s:strref,n:u8)
@@ -87,9 +91,9 @@ let rec shape_of_expr (s : string) : shape =
        (match name, args with
         | "opt", [a] -> ShOption a
         | "seq", [a] -> ShSeq (true, a)
-        | "iseq", [a] -> ShSeq (false, a)
+        | "iseq", [a] | "cseq", [a] -> ShSeq (false, a)
         | "bmap", [k; v] -> ShMap (true, k, v)
-        | "imap", [k; v] -> ShMap (false, k, v)
+        | "imap", [k; v] | "cmap", [k; v] -> ShMap (false, k, v)
         | "tup", l -> ShTuple l
         | _, [a] when starts_with "arr" name ->
             let k = int_of_string (String.sub name 3 (String.length name - 3)) in
